@@ -403,9 +403,10 @@ func runC04(c *Ctx) {
 
 	// (e) long streams: the bit-length trailer bytes are only exercised by long inputs
 	//     (>= 2 MiB touches length>>24, >= 512 MiB touches length>>32); fed incrementally to gmsm and to the streaming reference
-	sizes := []int{1<<20 + 13, 2<<20 + 5, 9<<20 + 77}
+	// 520 MiB is the only way to see the upper word of the bit length, so it is in the quick tier too (about 20 s)
+	sizes := []int{1<<20 + 13, 2<<20 + 5, 9<<20 + 77, 520<<20 + 3}
 	if c.Thorough {
-		sizes = append(sizes, 64<<20+1, 520<<20+3)
+		sizes = append(sizes, 64<<20+1, 1100<<20+9)
 	}
 	Par(len(sizes), func(i int) {
 		sz := sizes[i]
